@@ -30,7 +30,7 @@ META = {
                  "against the real parser and diagnose_file",
 }
 
-PRELUDE = "From Coq Require Import List NArith Bool.\nImport ListNotations.\n"
+PRELUDE = "From Coq Require Import List Bool NArith.\nImport ListNotations.\n"
 
 THEOREMS = [("ops_table_matches_manual", "table"), ("expr_complete", "theorem"), ("expr_complete_rest", "theorem"),
             ("chunk_complete", "theorem"), ("lexical_constants", "table"), ("number_complete", "theorem"),
@@ -82,7 +82,7 @@ def correspondence(ck, binpath, n):
     def case_term(r, with_tree):
         tree = "None"
         if with_tree and r.get("tree"):
-            tree = "(Some (%s))" % r["tree"]
+            tree = "(Some (%s))" % r["tree"].replace("N K", "EV.C03.Syntax.N K").replace("L T", "EV.C03.Syntax.L T")
         return "{| c_level := %s; c_toks := %s; c_errs := %s; c_tree := %s; c_depth := (%d)%%nat |}" % (
             LV[r["level"]], coq_list(r["toks"]), "true" if r["errs"] else "false", tree, r["depth"])
     req = ["EV.C03.Syntax", "EV.C03.Corr"]
